@@ -26,7 +26,7 @@ func init() {
 			"each parsed by the real parser and by a reference precedence-climbing parser generated from the table in docs/reference/operators.md; " +
 			"F9: 16 first statements x 120 second lines that begin with a name starting with a reserved word x 7 separators: both statements must parse as each does alone; " +
 			"F10: every ordered pair of infix operators and 6 statement forms per operator as a one-liner run by the real binary with -p: it prints what the one-liner gives as a program of its own; " +
-			"non-trivial = the expression contains at least two constructs whose relative grouping the table decides; distinct = distinct source text",
+			"non-trivial = the expression contains at least two constructs whose relative grouping the table decides; distinct = distinct source text; round 8: F9 also states what each of 240 second lines must parse to on its own (a keyword-prefixed name is one identifier); F11: `-LIT OP x`, `(-LIT) OP x` and `-k OP x` must group alike for every operator, 4 literal kinds, both operand positions and every following operator.",
 		Assumptions: []string{
 			"ast.Program.String() renders the grouping faithfully (it is the observable named by the property)",
 			"forms whose grouping the table does not determine are not generated (see DESIGN.md C02 don't-cares)",
